@@ -186,10 +186,12 @@ def shrink(case, workdir, budget=50):
     best = None
     runs = 0
     changed = True
-    while changed and runs < budget:
+    import os as _os, time as _time
+    _deadline = _time.time() + int(_os.environ.get("VERIF_SHRINK_SECS", "150"))
+    while changed and runs < budget and _time.time() < _deadline:
         changed = False
         i = 0
-        while i < len(body) and runs < budget:
+        while i < len(body) and runs < budget and _time.time() < _deadline:
             cand = body[:i] + body[i + 1:]
             runs += 1
             r = fails(cand)
